@@ -2,7 +2,7 @@ package itf8
 
 import "github.com/biogo/hts/internal/vrt"
 
-// C20-H1: round trip over all int32 values.
+// C20-H1: round trip over all int32 values (one symbolic value, no bound).
 func VerifH_itf8_roundtrip() {
 	v := vrt.Int32("v")
 	var b [5]byte
@@ -13,4 +13,110 @@ func VerifH_itf8_roundtrip() {
 	vrt.Assert(m == n, "decode-n")
 	vrt.Assert(d == v, "roundtrip-value")
 	vrt.Reach("end")
+}
+
+// specITF8 is written from CRAM v3 section 2.3: the number of leading one bits
+// of the first byte is the number of following bytes; payload big-endian; in
+// the five byte form the last byte carries the low 4 bits in its low nibble.
+func specITF8(u uint32) (out [5]byte, n int) {
+	switch {
+	case u>>7 == 0:
+		out[0] = byte(u)
+		n = 1
+	case u>>14 == 0:
+		out[0] = 0x80 | byte(u>>8)
+		out[1] = byte(u & 0xff)
+		n = 2
+	case u>>21 == 0:
+		out[0] = 0xc0 | byte(u>>16)
+		out[1] = byte((u >> 8) & 0xff)
+		out[2] = byte(u & 0xff)
+		n = 3
+	case u>>28 == 0:
+		out[0] = 0xe0 | byte(u>>24)
+		out[1] = byte((u >> 16) & 0xff)
+		out[2] = byte((u >> 8) & 0xff)
+		out[3] = byte(u & 0xff)
+		n = 4
+	default:
+		out[0] = 0xf0 | byte(u>>28)
+		out[1] = byte((u >> 20) & 0xff)
+		out[2] = byte((u >> 12) & 0xff)
+		out[3] = byte((u >> 4) & 0xff)
+		out[4] = byte(u & 0x0f)
+		n = 5
+	}
+	return
+}
+
+// C20-H2: the bytes written equal the specification's encoding.
+func VerifH_itf8_specbytes() {
+	v := vrt.Int32("v")
+	var b [5]byte
+	n := Encode(b[:], v)
+	want, wn := specITF8(uint32(v))
+	vrt.Assert(n == wn, "spec-length")
+	for i := 0; i < wn; i++ {
+		if i == 4 {
+			// only the low nibble of the fifth byte is specified
+			vrt.Assert(b[4]&0x0f == want[4]&0x0f, "spec-byte4-low-nibble")
+		} else {
+			vrt.Assert(b[i] == want[i], "spec-byte")
+		}
+	}
+	// the spec decoder of the spec bytes is the library decoder's answer too
+	d, m, ok := Decode(want[:wn])
+	vrt.Assert(ok, "spec-decode-ok")
+	vrt.Assert(m == wn, "spec-decode-n")
+	vrt.Assert(d == v, "spec-decode-value")
+	vrt.Reach("end")
+}
+
+// C20-H3: decoding any byte string: announced length from the first byte only,
+// failure exactly when fewer bytes are available, nothing beyond n is read.
+func VerifH_itf8_decode_total() {
+	buf := vrt.Bytes("b", 9)
+	l := vrt.Int("len")
+	vrt.Assume(0 <= l)
+	vrt.Assume(l <= 9)
+	v, n, ok := Decode(buf[:l])
+	if l == 0 {
+		vrt.Assert(n == 0, "empty-n")
+		vrt.Assert(!ok, "empty-ok")
+		vrt.Assert(v == 0, "empty-v")
+		vrt.Reach("empty")
+		return
+	}
+	want := 1
+	b0 := buf[0]
+	if b0&0x80 != 0 {
+		want = 2
+		if b0&0x40 != 0 {
+			want = 3
+			if b0&0x20 != 0 {
+				want = 4
+				if b0&0x10 != 0 {
+					want = 5
+				}
+			}
+		}
+	}
+	vrt.Assert(n == want, "announced-length")
+	vrt.Assert(ok == (l >= n), "ok-iff-enough-bytes")
+	if ok {
+		v2, n2, ok2 := Decode(buf[:n])
+		vrt.Assert(ok2, "prefix-ok")
+		vrt.Assert(n2 == n, "prefix-n")
+		vrt.Assert(v2 == v, "no-read-beyond-n")
+		// and the value re-encodes to a string that decodes to the same value
+		var e [5]byte
+		k := Encode(e[:], v)
+		v3, _, ok3 := Decode(e[:k])
+		vrt.Assert(ok3, "reencode-ok")
+		vrt.Assert(v3 == v, "reencode-value")
+		vrt.Reach("ok")
+	} else {
+		vrt.Assert(v == 0, "fail-value-zero")
+		vrt.Reach("short")
+	}
 }
